@@ -162,7 +162,21 @@ def property_on_impl(ant, src_seed, rng):
     # a further medium far beyond every reflection point
     if len(ms) < 4:
         ap = clone_media(ms)
-        far = 9e5
+        # just beyond every reflection point of the requested directions (computed from the geometry:
+        # the ray leaving the pulse at height z towards (theta, phi) meets the ground t4 = z tan(theta) away)
+        circ = (ms[0].boundary != 'linear') and len(ms) > 1
+        far = 0.0
+        for pu in mr.pulses:
+            x, y, z = (float(v) for v in pu.point)
+            for th in THETAS:
+                if th >= 89:
+                    continue
+                t4 = z * math.tan(math.radians(th))
+                for ph in PHIS:
+                    bx = x + t4 * math.cos(math.radians(ph)); by = y + t4 * math.sin(math.radians(ph))
+                    far = max(far, math.hypot(bx, by) if circ else bx)
+        prev = ms[-2].coord if len(ms) > 1 else 0.0
+        far = max(far * 1.02 + 1e-6, prev + 1.0)
         last = ap[-1]
         ap[-1] = Medium(last.permittivity, last.conductivity, height=last.height, boundary=ms[0].boundary if len(ms) > 1 else 'linear', coord=far,
                         **(dict(nradials=last.nradials, radius=last.radius) if last.nradials else {}))
